@@ -70,13 +70,25 @@ def check(run):
         st = assigns[0]
         t = st.targets[0]
         idx = t.slice.elts if isinstance(t.slice, ast.Tuple) else [t.slice]
-        l = st.value.left
-        r = st.value.right
+        from ..astutil import LocalDefs
+        gdefs = LocalDefs(g.node)
+
+        def through_locals(e, depth=0):
+            """a local bound exactly once to a subscript read is looked through (saddle_diff = grad[..., mask])"""
+            while isinstance(e, ast.Name) and depth < 3 and len(gdefs.defs.get(e.id, [])) == 1 and isinstance(gdefs.defs[e.id][0][0], (ast.Subscript, ast.Name)) and not gdefs.defs[e.id][0][2]:
+                e = gdefs.defs[e.id][0][0]
+                depth += 1
+            return e
+        l = through_locals(st.value.left)
+        r = through_locals(st.value.right)
         same_mask = len(idx) == 2 and isinstance(r, ast.Subscript) and norm(r.slice) == norm(idx[1]) and isinstance(l, ast.Subscript) and norm(l.slice) == norm(t.slice)
+        understood = isinstance(l, (ast.Subscript, ast.Name)) and isinstance(r, (ast.Subscript, ast.Name, ast.Attribute))
         if same_mask:
             run.holds("F-PATH/boundary-guard", c, where(g, st), f"difference divided by distance on {norm(idx[1])} only")
+        elif understood:
+            run.violation("F-PATH/boundary-guard", c, where(g, st), f"numerator {norm(l)[:40]}, denominator {norm(r)[:40]} and target {norm(t)[:40]} of the gradient division are not restricted by the same saddle mask")
         else:
-            run.violation("F-PATH/boundary-guard", c, where(g, st), "numerator, denominator and target of the gradient division are not restricted by the same saddle mask")
+            run.incomplete("F-PATH/boundary-guard", c, where(g, st), f"operands {norm(l)[:40]} / {norm(r)[:40]} of the masked division are not plain (masked) reads")
     else:
         # a division whose result REBINDS the array (grad = grad[..., mask] / d[mask]) compresses the edge axis to the interior edges
         shrink = [st for st in iter_stmts(g.node.body) if isinstance(st, ast.Assign) and isinstance(st.targets[0], ast.Name) and isinstance(st.value, ast.BinOp) and isinstance(st.value.op, ast.Div)
